@@ -18,7 +18,7 @@ META = {
                'C10.workflow': '3 tasks, shapes free / fork / join, compute 10..40', 'C10.algorithms': ['BatchProcessing', 'QueueProcessing', 'DynamicSchedulingFromPlan+static stub'],
                'C10.real_seed_search': 'PYTHONHASHSEED 0..23 on a refutation'},
     'outside_bounds': ["CPython's actual probe sequence (orders are an over-approximation; cross-process equality is replayed, not proved)", 'ready sets > 3 tasks'],
-    'stubs': simh.STUBS + ['E8 RankSet: the name set in every topsim module -> a set subclass whose iteration order (also of derived sets) is a solver-chosen permutation of tasks / machines'], 'assumptions': [],
+    'stubs': simh.STUBS + ['E8b SaltedHash: the name hash in every topsim module -> builtin hash with string hashes salted per run', 'E10b SeedDelay: delay = seed % 3', 'E8 RankSet: the name set in every topsim module -> a set subclass whose iteration order (also of derived sets) is a solver-chosen permutation of tasks / machines'], 'assumptions': [],
 }
 PERMS = list(itertools.permutations(range(3)))
 PERM = [PERMS[0]]
@@ -75,6 +75,25 @@ class RankSet(set):
         return x
 
 
+class SaltedHash:
+    """E8b: stands in for the builtin hash inside the topsim modules: str / bytes (and tuples containing them) hash
+    differently in every interpreter process (PYTHONHASHSEED); the salt is chosen with the iteration order"""
+
+    def __init__(self, salt):
+        self.salt = salt
+
+    def _salted(self, x):
+        if isinstance(x, (str, bytes)):
+            return True
+        if isinstance(x, (tuple, frozenset)):
+            return any(self._salted(y) for y in x)
+        return False
+
+    def __call__(self, x):
+        h = hash(x)
+        return (h ^ (self.salt * 0x9E3779B97F4A7C15)) & 0x7FFFFFFFFFFFFFFF if (self.salt and self._salted(x)) else h
+
+
 def _set_modules():
     import topsim.core.cluster, topsim.core.buffer, topsim.core.task, topsim.core.planner, topsim.user.telescope
     import topsim.user.schedule.batch_allocation, topsim.user.schedule.queue_allocation, topsim.user.schedule.dynamic_plan, topsim.user.schedule.greedy
@@ -90,6 +109,8 @@ def scenario(s2, c0, c1, c2):
     sc = dict(machines=PIN.get('machines', [10, 20]), bw=5, max_ingest=2, arrays=4, hot=1000, cold=1000, hot_rate=100, cold_rate=100,
               obs=[dict(start=0, dur=1, arrays=1, ingest=1, rate=5), dict(start=s2, dur=2, arrays=1, ingest=1, rate=5)],
               graphs=[dict(n=3, edges=edges, comps=[PIN.get('scale', 10) * c0, PIN.get('scale', 10) * c1, PIN.get('scale', 10) * c2])], alg=dict(kind='queue'), delays=[])
+    if PIN.get('seed_delay') is not None:
+        sc['seed_delay'] = PIN['seed_delay']      # the planner's own delay model, copied per task
     a = PIN.get('alg', 'queue')
     if a == 'batch':
         sc['alg'] = dict(kind='batch', parts=1, min=1)
@@ -104,17 +125,19 @@ def scenario(s2, c0, c1, c2):
 def _outputs(sc, perm):
     PERM[0] = PERMS[perm]
     mods = _set_modules()
-    saved = [m.__dict__.get('set') for m in mods]
+    saved = [(m.__dict__.get('set'), m.__dict__.get('hash')) for m in mods]
     for m in mods:
         m.set = RankSet                    # every set() created by topsim code in this run iterates in the chosen order
+        m.hash = SaltedHash(perm)          # and every hash() of a string it computes is salted per run
     try:
         return simh.outputs(simh.run_public(sc, [PIN.get('T', 24)]))
     finally:
-        for m, old in zip(mods, saved):
-            if old is None:
-                del m.set
-            else:
-                m.set = old
+        for m, (old, oldh) in zip(mods, saved):
+            for name, o in (('set', old), ('hash', oldh)):
+                if o is None:
+                    del m.__dict__[name]
+                else:
+                    m.__dict__[name] = o
 
 
 def seeds_differ(sc, n=24):
@@ -140,7 +163,7 @@ def _order(pa, s2, c0, c1, c2):
         if got[key] != ref[key]:
             if not ANALYSIS[0] and not seeds_differ(sc):
                 return None         # difference exists only on the abstraction: not reported
-            return f'C10/{key}-depend-on-ready-set-iteration-order'
+            return f'C10/{key}-depend-on-set-iteration-order-or-string-hash-salt'
     return None
 
 
@@ -233,6 +256,9 @@ def shards(tier, prop):
     # a reservation of several unequal machines that is released and handed to the next workflow
     out.append({'fn': 'order', 'pin': {'alg': 'batch', 'shape': 'free', 'machines': [10, 20, 30, 40], 'scale': 30}, 'cond_timeout': T})
     out.append({'fn': 'order', 'pin': {'alg': 'batch', 'shape': 'fork', 'machines': [10, 20, 30, 40], 'scale': 30}, 'cond_timeout': T})
+    # the planner carries its own seeded delay model (copied per task); string hashes salted differently in the two runs
+    out.append({'fn': 'order', 'pin': {'alg': 'queue', 'shape': 'fork', 'seed_delay': 20}, 'cond_timeout': T})
+    out.append({'fn': 'order', 'pin': {'alg': 'batch', 'shape': 'join', 'seed_delay': 7}, 'cond_timeout': T})
     out.append({'kind': 'py', 'fn': 'seeds_job', 'cond_timeout': 200, 'name': 'real-interpreter:hash-seeds'})
     out.append({'fn': 'order', 'pin': {'alg': 'queue', 'shape': 'free'}, 'cond_timeout': 40, 'twin': True})
     return out
